@@ -24,6 +24,11 @@ type GenConfig struct {
 	Stops     bool // listing consumers that decline early
 	Uploads   bool
 	SmallReads bool
+	// Motifs: now and then a short scripted history with seeded parameters is woven
+	// into the random one (nested references with members deleted before tagging,
+	// references filled in after tagging ...): multi-step shapes a uniform draw of
+	// single operations reaches too rarely. The model judges every operation as usual.
+	Motifs bool
 }
 
 // Gen generates operations, biased by the current model state.
@@ -32,6 +37,7 @@ type Gen struct {
 	M       *Model
 	Cfg     GenConfig
 	nextH   int
+	queue   []*Op // operations of a motif still to be issued
 	live    []int // upload handles that may still be used
 	serial  int
 	pastMan []pastManifest
@@ -301,6 +307,16 @@ func (g *Gen) readSize() int {
 
 // Next generates the next operation.
 func (g *Gen) Next() *Op {
+	if g.Cfg.Motifs {
+		if len(g.queue) == 0 && g.C.Bool("motif?", 1, 12) {
+			g.queue = g.motif()
+		}
+		if len(g.queue) > 0 && g.C.Bool("motif.next", 3, 4) {
+			op := g.queue[0]
+			g.queue = g.queue[1:]
+			return op
+		}
+	}
 	w := g.Cfg.Weights
 	if !g.Cfg.Uploads {
 		for k := UpStart; k <= UpSize; k++ {
@@ -526,4 +542,127 @@ func (g *Gen) NextRead() *Op {
 	op := g.Next()
 	g.Cfg.Weights = saved
 	return op
+}
+
+// ---- motifs ----
+
+func (g *Gen) mBlob(repo string) (*Op, jsonDesc) {
+	g.serial++
+	data := []byte(fmt.Sprintf("motif-blob-%d-%d", g.serial, g.C.Int("motif.uniq", 1<<20)))
+	op := &Op{Kind: PushBlob, Repo: repo, Data: data, Digest: Sha256(data), DeclSize: int64(len(data)), MediaType: "application/octet-stream", StopAfter: -1, ContentFault: -1}
+	return op, jsonDesc{MediaType: "application/vnd.oci.image.layer.v1.tar", Digest: string(op.Digest), Size: int64(len(data))}
+}
+
+func (g *Gen) mManifest(repo, tag, mt string, obj map[string]any) (*Op, jsonDesc) {
+	g.serial++
+	obj["schemaVersion"] = 2
+	obj["mediaType"] = mt
+	obj["annotations"] = map[string]string{"u": fmt.Sprintf("motif-%d-%d", g.serial, g.C.Int("motif.uniq", 1<<20))}
+	data, _ := json.Marshal(obj)
+	g.pastMan = append(g.pastMan, pastManifest{data, mt})
+	op := &Op{Kind: PushManifest, Repo: repo, Tag: tag, Data: data, MediaType: mt, StopAfter: -1, ContentFault: -1}
+	return op, jsonDesc{MediaType: mt, Digest: string(Sha256(data)), Size: int64(len(data))}
+}
+
+func (g *Gen) mImage(repo, tag string, cfg jsonDesc, layers []jsonDesc, subject *jsonDesc) (*Op, jsonDesc) {
+	if layers == nil {
+		layers = []jsonDesc{}
+	}
+	obj := map[string]any{"config": cfg, "layers": layers}
+	if subject != nil {
+		obj["subject"] = *subject
+	}
+	return g.mManifest(repo, tag, MTImageManifest, obj)
+}
+
+func (g *Gen) mIndex(repo, tag string, children []jsonDesc, subject *jsonDesc) (*Op, jsonDesc) {
+	obj := map[string]any{"manifests": children}
+	if subject != nil {
+		obj["subject"] = *subject
+	}
+	return g.mManifest(repo, tag, MTImageIndex, obj)
+}
+
+func mDel(kind Kind, repo string, d jsonDesc) *Op {
+	return &Op{Kind: kind, Repo: repo, Digest: ociregistry.Digest(d.Digest), StopAfter: -1, ContentFault: -1}
+}
+
+// motif builds one scripted history for a repository in play.
+func (g *Gen) motif() []*Op {
+	repo := g.repo()
+	tag := g.tag()
+	var ops []*Op
+	add := func(op *Op, d jsonDesc) jsonDesc { ops = append(ops, op); return d }
+	probes := func(ds ...jsonDesc) {
+		// delete attempts (and reads) on everything the motif built, in a seeded order
+		perm := g.C.Perm("motif.probe", len(ds))
+		for _, i := range perm {
+			d := ds[i]
+			kind := DeleteBlob
+			if d.MediaType == MTImageManifest || d.MediaType == MTImageIndex {
+				kind = DeleteManifest
+			}
+			if g.C.Bool("motif.probe?", 2, 3) {
+				ops = append(ops, mDel(kind, repo, d))
+			}
+		}
+		ops = append(ops, &Op{Kind: GetTag, Repo: repo, Tag: tag, StopAfter: -1, ContentFault: -1})
+	}
+	switch g.C.Int("motif.kind", 4) {
+	case 0:
+		// nested index, one member deleted before anything is tagged, then the outer
+		// index is tagged: everything still reachable must stay
+		c1 := add(g.mBlob(repo))
+		c2 := add(g.mBlob(repo))
+		m1 := add(g.mImage(repo, "", c1, nil, nil))
+		m2 := add(g.mImage(repo, "", c2, []jsonDesc{c1}, nil))
+		members := []jsonDesc{m1, m2}
+		if g.C.Bool("motif.swap", 1, 2) {
+			members = []jsonDesc{m2, m1}
+		}
+		inner := add(g.mIndex(repo, "", members, nil))
+		ops = append(ops, mDel(DeleteManifest, repo, members[g.C.Int("motif.del", 2)]))
+		outer := add(g.mIndex(repo, tag, []jsonDesc{inner}, nil))
+		probes(c1, c2, m1, m2, inner, outer)
+	case 1:
+		// a reference that dangles when the tag is set and is filled in later
+		c1 := add(g.mBlob(repo))
+		c2op, c2 := g.mBlob(repo)
+		sop, sd := g.mImage(repo, "", c2, nil, nil)
+		if g.C.Bool("motif.viasubject", 1, 2) {
+			add(g.mImage(repo, tag, c1, nil, &sd))
+		} else {
+			// an index may only be pushed with its members present: push, delete, re-push
+			ops = append(ops, c2op, sop)
+			idxOp, idx := g.mIndex(repo, "", []jsonDesc{sd}, nil)
+			add(idxOp, idx)
+			ops = append(ops, mDel(DeleteManifest, repo, sd), mDel(DeleteBlob, repo, c2))
+			add(g.mIndex(repo, tag, []jsonDesc{idx}, nil))
+		}
+		// unrelated churn (whatever the registry remembers about reachability is now stale)
+		x := add(g.mBlob(repo))
+		ops = append(ops, mDel(DeleteBlob, repo, x))
+		ops = append(ops, c2op, sop)
+		probes(c1, c2, sd)
+	case 2:
+		// the same blob referenced directly and through an index; one path is removed
+		c1 := add(g.mBlob(repo))
+		m1 := add(g.mImage(repo, "", c1, []jsonDesc{c1}, nil))
+		idx := add(g.mIndex(repo, tag, []jsonDesc{m1}, nil))
+		m3 := add(g.mImage(repo, "", c1, nil, &idx))
+		ops = append(ops, mDel(DeleteManifest, repo, m3))
+		probes(c1, m1, idx)
+	case 3:
+		// tag moves (or is refused) between two images sharing a layer
+		shared := add(g.mBlob(repo))
+		a := add(g.mBlob(repo))
+		b := add(g.mBlob(repo))
+		m1 := add(g.mImage(repo, tag, a, []jsonDesc{shared}, nil))
+		m2 := add(g.mImage(repo, tag, b, []jsonDesc{shared}, nil))
+		if g.C.Bool("motif.deltag", 1, 2) {
+			ops = append(ops, &Op{Kind: DeleteTag, Repo: repo, Tag: tag, StopAfter: -1, ContentFault: -1})
+		}
+		probes(shared, a, b, m1, m2)
+	}
+	return ops
 }
